@@ -490,7 +490,7 @@ impl Engine for C12 {
         let mut db = match build(&t, &l) {
             Ok(db) => db,
             Err(e) => {
-                out.violation(Violation { sig: "C12:build".into(), what: e, weight: 1, case: json!(plain("SELECT 1", "build")) });
+                out.violation(Violation { sig: "C12:build:hang-or-failure".into(), what: e, weight: 1, case: json!(plain("SELECT 1", "build")) });
                 return;
             }
         };
